@@ -268,17 +268,17 @@ func (r *yieldRewriter) rewriteStmt(
 	case *ast.SwitchStmt:
 		// ↓↓ non-trival branch ↓↓
 		// &stmt.Init maybe ptr of typed nil
-		return r.rewriteSwitchStmt(
+		return r.lastSwitchInLoop(isLast, r.rewriteSwitchStmt(
 			stmt, &stmt.Init, stmt.Tag, stmt.Body, &stmt.Switch, children,
-		)
+		))
 
 	case *ast.TypeSwitchStmt:
 		// ↓↓ non-trival branch ↓↓
 		trivalAssign := r.mustNoYield(stmt.Assign)
 		r.assert(trivalAssign, stmt.Assign, "yield not allowed")
-		return r.rewriteSwitchStmt(
+		return r.lastSwitchInLoop(isLast, r.rewriteSwitchStmt(
 			stmt, &stmt.Init, stmt.Assign, stmt.Body, &stmt.Switch, children,
-		)
+		))
 
 	case *ast.ForStmt:
 		// ↓↓ non-trival branch ↓↓
@@ -308,6 +308,17 @@ func (r *yieldRewriter) rewriteStmt(
 		children.push(stmt, kindTrival)
 		return children
 	}
+}
+
+// a yielding switch which ends a loop body needs the implicit normal continuation,
+// like the yielding if does
+func (r *yieldRewriter) lastSwitchInLoop(isLast bool, children *block) *block {
+	if isLast && children != nil && children.kind == kindFor &&
+		children.len() > 0 && children.lastKind() == kindSwitch {
+		r.generateLastNormalIfNecessary(children)
+		return nil
+	}
+	return children
 }
 
 func (r *yieldRewriter) rewriteBlockStmt(
